@@ -343,9 +343,12 @@ impl Expr {
                     if let Some(ty) = ty {
                         let ty = ty.disregard_distractors(false);
 
-                        if ty.is_optional().1.is_some() && fallback.is_optional().1.is_some() {
+                        if ty.is_optional().1.is_some()
+                            && fallback.is_optional().1.is_some()
+                            && !ty.eq_complex(&fallback, flags)
+                        {
                             // only check if neither of the operands is `nil`
-                            assert_eq!(ty, &fallback);
+                            bail!("the two sides of `or` have different types: `{ty}` and `{fallback}`")
                         }
 
                         ty.clone()
@@ -354,10 +357,13 @@ impl Expr {
                         fallback
                     }
                 } else {
-                    assert_eq!(
-                        primary.disregard_distractors(false),
-                        fallback.disregard_distractors(false)
-                    );
+                    if !primary
+                        .disregard_distractors(false)
+                        .eq_complex(fallback.disregard_distractors(false), flags)
+                    {
+                        bail!("the two sides of `or` have different types: `{primary}` and `{fallback}`")
+                    }
+
                     primary
                 })
             }
